@@ -1,5 +1,10 @@
-(* C10 -- statements grow with the development; see DESIGN.md section 7. *)
-From BL Require Import Base.Prelude Mach.Val Mach.Compile.
+(* C10 -- user functions.
+   Proved (Proofs/FnCall.v): the error cases of the call (undefined function, wrong argument count, DEF at the prompt),
+   and the return protocol (the body's value is kept, everything down to the return address is dropped, control returns
+   to the saved address; variables untouched).  Mangled parameter names contain a '.'.
+   NOT proved: locality of parameters end to end and call-time evaluation of the body (decided by the C10 monitor against
+   Spec/Sem.v, which binds parameters in a local environment), runaway recursion ending in OUT OF MEMORY (C18 cases). *)
+From BL Require Import Base.Prelude Mach.Val Mach.Compile Mach.Runtime Proofs.FnCall.
 Local Open Scope N_scope.
 From BL Require Import Lang.Token Lang.Parse.
 
@@ -11,3 +16,23 @@ Proof.
   destruct p; cbn [ident_str]; apply in_or_app; right; left; reflexivity.
 Qed.
 Print Assumptions C10_mangled_has_dot.
+
+Theorem C10_call_undefined : forall name r r1 args, pop_vec r = (r1, Ok args) ->
+  alist_get name (r_fns r1) = None -> snd (do_fn name r) = err E_UndefinedFn.
+Proof. exact call_undefined. Qed.
+Print Assumptions C10_call_undefined.
+
+Theorem C10_call_wrong_arity : forall name r r1 args arity addr, pop_vec r = (r1, Ok args) ->
+  alist_get name (r_fns r1) = Some (arity, addr) -> arity <> lenN args -> snd (do_fn name r) = err E_IllegalFunctionCall.
+Proof. exact call_wrong_arity. Qed.
+Print Assumptions C10_call_wrong_arity.
+
+Theorem C10_def_in_direct_mode : forall name r, r_entry r <= r_pc r -> snd (do_def name r) = err E_IllegalDirect.
+Proof. exact def_in_direct_mode. Qed.
+Print Assumptions C10_def_in_direct_mode.
+
+Theorem C10_return_with_value : forall r v a rest, r_stack r = v :: VRet a :: rest -> is_assignable v = true ->
+  lenN rest + 1 <= MAX_POOL ->
+  exists r', do_return r = (r', Ok tt) /\ r_stack r' = v :: rest /\ r_pc r' = a /\ r_vars r' = r_vars r.
+Proof. exact return_with_value. Qed.
+Print Assumptions C10_return_with_value.
